@@ -326,6 +326,57 @@ def run(facts, R):
             mp = [(i, t) for i, t in hc.calls() if t["callee"]["name"] == "map" and "offreader_limit" in render_n(hs.op(t["args"][0]))]
             R.check(len(mp) == 1 and not in_cycle(hc, mp[0][0]), "permit-before-spawn", hc.path, "created once, outside loops, from config.offreader_limit", "offreader_limit.map sites: %d" % len(mp), hc.span)
 
+    # ---------------- every way a handler leaves the reader carries a permit: each spawn site in the WebSocket server
+    # (spawn_blocking / thread::spawn / tokio::spawn) whose closure runs a handler (dispatch / handle*) captures an
+    # OwnedSemaphorePermit - a permit bound in the spawning function instead is released when that function returns, i.e. right
+    # after the spawn, and the cap no longer bounds the number of running handlers.  Closed over all spawn sites, so a second
+    # off-reader path (a bulk / priority / batched variant of spawn_off_reader) is judged like the first
+    n_sp = 0
+    for b_ in facts.bodies.values():
+        if not b_.path.startswith(WS):
+            continue
+        for i_, t_ in b_.calls():
+            if t_["callee"]["name"] not in ("spawn_blocking", "spawn", "spawn_local") or not t_["args"]:
+                continue
+            s_ = Sym(b_)
+            clo = [x for x in walk(s_.op(t_["args"][0])) if x[0] == "agg" and str(x[1]).startswith(("closure:", "coroutine:"))]
+            if not clo:
+                continue
+            cpath = str(clo[0][1]).split(":", 1)[1]
+            sub = [facts.bodies[p_] for p_ in facts.bodies if p_ == cpath or p_.startswith(cpath + "::{")]
+            runs_handler = any(t2["callee"]["name"] in ("dispatch", "dispatch_view", "handle", "handle_with_ctx", "handle_view") and
+                               ("server_request::" in t2["callee"]["path"] or "HandlerErased" in (t2["callee"].get("decl") or t2["callee"]["path"]))
+                               for sb_ in sub for _, t2 in sb_.calls())
+            if not runs_handler:
+                continue
+            n_sp += 1
+            holds = any("OwnedSemaphorePermit" in sb_.local_ty(l_) for sb_ in sub[:1] for l_ in range(len(sb_.locals)))
+            R.check(holds, "permit-before-spawn", b_.path, "a spawned handler run holds a permit for its whole run",
+                    "%s spawns a task that runs a handler, and the spawned closure owns no OwnedSemaphorePermit: whatever permit the spawning function took is "
+                    "released when that function returns, so any number of such handlers run at once regardless of the off-reader cap"
+                    % b_.path.rsplit("::", 2)[-2 if "{closure" in b_.path else -1], t_.get("span"), "closure owns the permit")
+            if not holds or b_.path == SOR:
+                continue        # (spawn_off_reader itself is judged in detail above)
+            # the same two obligations as in spawn_off_reader, for a derived site: nothing is spawned on the saturated edge, and the
+            # worker keeps the permit to its end
+            from analysis.guards import path_facts as _pf
+            alts_ = _pf(b_, s_, facts, i_)
+
+            def _admitted(fs_):
+                got = any(str(f_["val"]) == "Ok" and any(is_call(y_, "try_acquire_owned") for y_ in walk(f_["expr"])) for f_ in fs_)
+                nosem = any(str(f_["val"]) == "None" and ("sem" in render(f_["expr"]).lower() or "Semaphore" in render(f_["expr"])) for f_ in fs_)
+                return got or nosem
+            R.check(bool(alts_) and all(_admitted(fs_) for fs_ in alts_), "permit-before-spawn", b_.path, "no spawn without a permit (derived site)",
+                    "the spawn at this site is reached on a way that is neither behind the Ok edge of try_acquire_owned nor behind `no semaphore configured`: "
+                    "the cap is not enforced on this path; ways in: %s" % [[f_["text"][-50:] for f_ in fs_][-3:] for fs_ in alts_][:3],
+                    t_.get("span"), "spawn only on the None / Ok edges")
+            wk_ = sub[0]
+            pl_ = [l_ for l_ in range(len(wk_.locals)) if "OwnedSemaphorePermit" in wk_.local_ty(l_)]
+            moved = [(t2["callee"]["path"]) for _, t2 in wk_.calls() for o_ in t2["args"] if "move" in o_ and not o_["move"]["p"] and o_["move"]["l"] in pl_]
+            R.check(not moved, "permit-before-spawn", wk_.path, "permit held to the end of the handler run (derived site)",
+                    "the permit is released early / handed away: %s" % moved, wk_.span, "permit is a closure local dropped at scope end")
+    R.floor("permit-before-spawn", n_sp, 1, "spawn sites that run a handler off the reader")
+
     # ---------------- blocking-marker-in-raw: the off-reader marker wraps the leaf handler that is stored as the route's
     # `raw`, so that rebuilding the dispatched slot from `raw` (middleware registered later) keeps the route off-reader
     from analysis.guards import struct_constructions
